@@ -167,6 +167,21 @@ def grid_faces(g, loc):
     return out
 
 
+CARRIED = ["face_node_connectivity", "face_edge_connectivity", "face_face_connectivity", "edge_node_connectivity",
+           "edge_face_connectivity", "node_edge_connectivity", "node_face_connectivity", "n_nodes_per_face"]
+
+
+def int_rows(vals):
+    """an integer table as rows (NaN padding of a float table read back as the fill value); None if not a table"""
+    a = np.asarray(vals)
+    if a.dtype.kind == "f":
+        a = np.where(np.isnan(a), float(INT_FILL), a)
+    if a.dtype.kind not in "iuf" or a.ndim not in (1, 2):
+        return None
+    a = a.astype(np.int64)
+    return [a.tolist()] if a.ndim == 1 else a.tolist()
+
+
 def mesh_json(m, source="topology"):
     """source: 'topology' = Grid.from_topology(node_lon, node_lat, face_node_connectivity) (lon/lat only);
     'xyz' = Grid.from_face_vertices(Cartesian corner positions, latlon=False) (Cartesian only)"""
@@ -344,6 +359,20 @@ def execute(H, driver, stats=None):
             # (b) re-open directly and after to_netcdf
             orig = m.faces
             results = {}
+            tables = {}
+            carried = []
+            if fmt == "ugrid":
+                # every connectivity table the export carries, as the grid holds it NOW (copied: a reader that
+                # works in place on shared arrays must not be able to touch the reference)
+                for name in CARRIED:
+                    if name in out and name in g._ds:
+                        rows_o = int_rows(np.array(g._ds[name].values, copy=True))
+                        if rows_o is not None:
+                            sidx = out[name].attrs.get("start_index")
+                            carried.append((name, sidx, rows_o))
+                hit(f"carried-tables={min(len(carried), 8)}")
+                if any(len(t) and min((x for r_ in t for x in r_ if x != INT_FILL), default=0) > 0 for _, _, t in carried):
+                    hit("carried-table-not-using-index-0")
             for path in ("direct", "netcdf"):
                 src = out
                 if path == "netcdf":
@@ -369,6 +398,27 @@ def execute(H, driver, stats=None):
                             pass
                 v = driver.ask("C07.rt", FMT_CODE[fmt], enc_rows(orig), enc_rows(got))
                 results[path] = ("ok",) if v == "ok" else ("faces", v.split(" ", 1)[1], "", dict(n_face=len(got), first=got[:3]))
+                if carried:
+                    req, gots = [], {}
+                    for name, sidx, rows_o in carried:
+                        rows_g = int_rows(r._ds[name].values) if name in r._ds else None
+                        gots[name] = rows_g
+                        has = sidx is not None
+                        req.append(f"{N.idx(name)} {int(has)} {int(sidx) if has else 0} {enc_rows(rows_o)} "
+                                   f"{enc_rows(rows_g if rows_g is not None else [])}")
+                    ans = common.Tok(driver.ask("C07.tables", len(req), " ".join(req)))
+                    bad = [N.name(i) for i in ans.ints()]
+                    model_bad = [N.name(i) for i in ans.ints()]
+                    # face_node_connectivity is judged by RoundTripOK (start corner free), the others entry by entry
+                    bad = [b_ for b_ in bad if b_ != "face_node_connectivity"]
+                    detail = {}
+                    for b_ in bad[:3]:
+                        ro = dict((n_, t_) for n_, _, t_ in carried)[b_]
+                        rg = gots[b_]
+                        k = next((i for i, (x, y) in enumerate(zip(ro, rg or [])) if x != y), 0)
+                        detail[b_] = dict(row=k, grid=ro[k] if k < len(ro) else None,
+                                          reopened=(rg[k] if rg and k < len(rg) else rg))
+                    tables[path] = (tuple(bad), tuple(model_bad), detail)
             rec["reopen"] = {k: v[0] for k, v in results.items()}
             hit("reopen-ok" if all(v[0] == "ok" for v in results.values()) else "reopen-not-ok")
             # attribute a failure of a correct export to the reader
@@ -379,6 +429,21 @@ def execute(H, driver, stats=None):
                 why = "padding-corners-kept"
             elif not export_ok:
                 why = "export-wrong"
+            if tables:
+                tsame = tables.get("direct", ((), (), {}))[:2] == tables.get("netcdf", ((), (), {}))[:2] and len(tables) == 2
+                for path in ("direct", "netcdf"):
+                    if path not in tables or (tsame and path == "netcdf"):
+                        continue
+                    bad, model_bad, detail = tables[path]
+                    where = "reopen" if tsame else f"reopen-{path}"
+                    if bad:
+                        fail(si, f"C07/ugrid/{where}/carried-table-differs/" + "+".join(bad),
+                             f"connectivity table(s) {list(bad)} of the grid re-opened from the ugrid export "
+                             f"({'both paths' if tsame else path}) differ entry by entry from the tables of the encoded grid: {detail}",
+                             detail, ["carried_tables"])
+                    elif model_bad:
+                        mismatches.append(dict(relation="C07/reader-model/standardize", step=si,
+                                               implementation=list(model_bad), model=path))
             same = results["direct"][:3] == results["netcdf"][:3]
             for path in ("direct", "netcdf"):
                 res = results[path]
@@ -495,6 +560,38 @@ def canon_out(o):
 # --------------------------------------------------------------------------------------
 # generators
 # --------------------------------------------------------------------------------------
+def with_orphans(m, rng, where):
+    """the same faces over a node list with nodes no face uses at the start / middle / end of the numbering
+    (left-over nodes, or a face subset kept without renumbering)"""
+    k = rng.choice([1, 1, 2, 3])
+    n = m.n_node
+    pos = dict(start=0, middle=max(1, n // 2), end=n)[where]
+    extra = []
+    while len(extra) < k:
+        p = np.array([rng.gauss(0, 1) for _ in range(3)])
+        p /= np.linalg.norm(p)
+        if np.min(np.linalg.norm(np.vstack([m.xyz] + extra) - p, axis=1)) > 0.02:
+            extra.append(p[None, :])
+    xyz = np.vstack([m.xyz[:pos]] + extra + [m.xyz[pos:]])
+    faces = [[v + k if v >= pos else v for v in f] for f in m.faces]
+    return meshes.AMesh(faces, xyz, m.closed, m.kind + f"+unused@{where}")
+
+
+def union(a, b):
+    """two meshes side by side (disjoint node sets), faces of `a` first"""
+    return meshes.AMesh(a.faces + [[v + a.n_node for v in f] for f in b.faces], np.vstack([a.xyz, b.xyz]), False,
+                        a.kind + "|" + b.kind)
+
+
+def isolated_first(rng):
+    """face 0 shares no edge with any face (so it is nobody's neighbour); the other faces are connected"""
+    iso = meshes.fan(3, lon0=rng.choice([-150.0, 120.0]), lat0=-55.0, r=6.0).select([0], kind="isolated-first")
+    rest = rng.choice([meshes.patch(2, 2, lon0=-10, lat0=10), meshes.fan(5, lon0=40.0, lat0=30.0), meshes.prism(5, lat=70.0)])
+    if isinstance(rest, meshes.AMesh) and rest.closed:
+        rest = rest.drop_faces(rng, 0.3)
+    return union(iso, rest)
+
+
 def three_sizes(rng):
     for _ in range(50):
         k = rng.choice([5, 6, 7, 8])
@@ -528,6 +625,8 @@ def pick_mesh(rng, cls=None, big=False):
         m = m.rotated(meshes.random_rotation(rng))
     if rng.random() < 0.6:
         m = m.renumber(rng)
+    if rng.random() < 0.3:
+        m = with_orphans(m, rng, rng.choice(["start", "start", "middle", "end"]))
     return m
 
 
@@ -562,6 +661,18 @@ def directed(rng):
     H.append(dict(meshes=[uni, uni], ops=[["enc", 0, "exodus", "to_xarray"], ["mat", 1, ["node_x"]], ["enc", 1, "exodus", "to_xarray"]]))
     H.append(dict(meshes=[meshes.prism(9)], ops=[["enc", 0, "exodus", "to_xarray"]]))
     H.append(dict(meshes=[meshes.prism(10)], ops=[["enc", 0, "ugrid", "to_xarray"], ["enc", 0, "scrip", "to_xarray"]]))
+    # nodes that no face uses (node 0 in particular), an isolated first face: tables whose smallest entry is not 0
+    TABLES = ["edge_node_connectivity", "face_edge_connectivity", "edge_face_connectivity", "node_face_connectivity",
+              "face_face_connectivity", "n_nodes_per_face"]
+    for where in ("start", "middle", "end"):
+        mo = with_orphans(rng.choice([mixed, uni, three]), rng, where)
+        H.append(dict(meshes=[mo], ops=[["enc", 0, f, "to_xarray"] for f in FMTS]))
+        H.append(dict(meshes=[mo], ops=[["mat", 0, TABLES], ["enc", 0, "ugrid", api(rng)], ["enc", 0, "exodus", "to_xarray"]]))
+    iso = isolated_first(rng)
+    H.append(dict(meshes=[iso], ops=[["mat", 0, TABLES], ["enc", 0, "ugrid", "to_xarray"], ["enc", 0, "scrip", "to_xarray"]]))
+    H.append(dict(meshes=[with_orphans(iso, rng, "start"), uni],
+                  ops=[["mat", 0, TABLES + ["face_lon", "bounds"]], ["enc", 0, "ugrid", "encode_as"], ["enc", 1, "ugrid", "to_xarray"],
+                       ["enc", 0, "exodus", "to_xarray"]]))
     out = [dict(meshes=[mesh_json(m) for m in h["meshes"]], ops=h["ops"]) for h in H]
     # Cartesian-only sources (no node_lon/node_lat in the dataset until something asks for them)
     for m in (uni, mixed, three):
@@ -732,9 +843,12 @@ def run_history(ctx, H, tag):
 def run(ctx):
     ctx.rule = ("histories [materialise S on g_i | encode g_j as ugrid/exodus/scrip via to_xarray or encode_as] over 1-3 grids "
                 "(harness/meshes generators, built by Grid.from_topology (lon/lat only) or Grid.from_face_vertices (Cartesian only): uniform tri/quad, prisms/antiprisms (two sizes), split prisms and merged duals "
-                "(three or more sizes), partial lattices/fans/isolated faces, random renumbering/rotation; sizes 3..8, plus 9-/10-gons), "
+                "(three or more sizes), partial lattices/fans/isolated faces, random renumbering/rotation, nodes that no face uses at the "
+                "start/middle/end of the numbering, an isolated first face; sizes 3..8, plus 9-/10-gons), "
                 "directed histories for each mechanism + random histories (+ subsets of the eight derived families); every "
-                "export re-opened directly and after to_netcdf to a mkdtemp scratch file; one case = one encode step; "
+                "export re-opened directly and after to_netcdf to a mkdtemp scratch file, faces compared by Lean's RoundTripOK and EVERY "
+                "carried-over connectivity table (face_edge, face_face, edge_node, edge_face, node_face, n_nodes_per_face) entry by entry "
+                "(Lean: carriedFailing; reader model: standardize with the export's start_index attribute); one case = one encode step; "
                 "non-trivial = mixed sizes or a history with more than one operation")
     ctx.assumptions = [
         "netCDF4/xarray serialisation, Dataset.rename/copy semantics and NumPy indexing are tied to the model only by this differential run",
